@@ -217,6 +217,21 @@ def _neutral_one(prop, label, transform):
         shutil.rmtree(d, ignore_errors=True)
 
 
+def _stored_neutral_one(prop, name, patch_text):
+    """A behaviour-preserving refactoring written by an independent sub-agent and confirmed by its equivalence demo: the check
+    must not report a violation on it (failing closed is reported separately)."""
+    d = _scratch("stored-neutral")
+    try:
+        if not _apply(d, patch_text)[0]:
+            return {"variant": name, "kind": "neutral", "status": "silent", "exit": 0, "keys": [], "note": "patch no longer applies (skipped)"}
+        rc, nv, keys, aerr = _run(prop, d)
+        return {"variant": name, "kind": "neutral", "files_changed": patch_text.count("\ndiff --git"),
+                "status": "silent" if rc == 0 else ("FALSE ALARM" if rc == 1 else "analysis-broken"),
+                "exit": rc, "keys": keys[:4], "analysis_error": aerr[:1]}
+    finally:
+        shutil.rmtree(d, ignore_errors=True)
+
+
 def _mutant_one(prop, label, relpath, src):
     d = _scratch("mut")
     try:
@@ -252,6 +267,12 @@ def run(prop, also_foreign=False):
     with ThreadPoolExecutor(max_workers=min(16, os.cpu_count() or 4)) as ex:
         futs = [ex.submit(_one, prop, *j) for j in jobs]
         futs += [ex.submit(_neutral_one, prop, label, tr) for label, tr in neutral_variants()]
+        neutral_dir = os.path.join(VERIF, "neutral")
+        if os.path.isdir(neutral_dir):
+            for name in sorted(os.listdir(neutral_dir)):
+                pf = os.path.join(neutral_dir, name, "patch.diff")
+                if name.startswith(prop + "-") and os.path.exists(pf):
+                    futs.append(ex.submit(_stored_neutral_one, prop, "refactoring " + name, open(pf).read()))
         mfuts = [ex.submit(_mutant_one, prop, label, rel, src) for label, rel, src in mvars]
         for f in futs:
             results.append(f.result())
